@@ -7,7 +7,7 @@ An undetected mutant does not fail the property check (the property still holds 
 import sys, os, json, glob, subprocess, tempfile, shutil, concurrent.futures as cf
 prop = sys.argv[1]
 num = prop[1:]
-env = dict(os.environ, GOFLAGS='-mod=mod', GOPROXY='off')
+env = dict(os.environ, GOFLAGS='-mod=mod -trimpath', GOPROXY='off')
 def run(patch):
     t = tempfile.mkdtemp(prefix='emcheck-th-')
     try:
